@@ -224,7 +224,7 @@ fn scripts_for(inp: &super::large::LargeInput) -> Result<Vec<(String, Vec<DiffOp
     let (n, m) = (old.len(), new.len());
     let mut out = vec![];
     for &alg in ALGS.iter() {
-        if alg == similar::Algorithm::Lcs && n.max(m) > 300 {
+        if alg == similar::Algorithm::Lcs && !super::large::lcs_affordable(inp) {
             continue;
         }
         let calls = raw_stream(alg, 0, old, 0..n, new, 0..m)?;
@@ -314,6 +314,35 @@ fn periodic_cases() -> Vec<(String, Vec<u32>, Vec<u32>, Vec<DiffOp>)> {
                 }
             }
         }
+    }
+    out
+}
+
+/// very long scripts of unit ops (more ops than any buffer / window size one might pick)
+fn huge_unit_scripts(tier: Tier) -> Vec<(String, Vec<u32>, Vec<u32>, Vec<DiffOp>)> {
+    let mut out = vec![];
+    let sizes: Vec<usize> = match tier {
+        Tier::Quick => vec![9_000, 20_000],
+        Tier::Thorough => vec![9_000, 20_000, 70_000],
+    };
+    for n in sizes {
+        let items: Vec<u32> = (0..n as u32).map(|i| i % 5).collect();
+        // only inserts
+        let s: Vec<DiffOp> = (0..n).map(|j| DiffOp::Insert { old_index: 0, new_index: j, new_len: 1 }).collect();
+        out.push((format!("{} unit inserts into an empty old", n), vec![], items.clone(), s));
+        // only deletes
+        let s: Vec<DiffOp> = (0..n).map(|i| DiffOp::Delete { old_index: i, old_len: 1, new_index: 0 }).collect();
+        out.push((format!("{} unit deletes down to an empty new", n), items.clone(), vec![], s));
+        // one equal item up front, then interleaved unit deletes / inserts of unrelated items
+        let half = n / 2;
+        let old: Vec<u32> = std::iter::once(1).chain((0..half as u32).map(|i| 100 + i % 7)).collect();
+        let new: Vec<u32> = std::iter::once(1).chain((0..half as u32).map(|i| 200 + i % 7)).collect();
+        let mut s = vec![DiffOp::Equal { old_index: 0, new_index: 0, len: 1 }];
+        for i in 0..half {
+            s.push(DiffOp::Delete { old_index: 1 + i, old_len: 1, new_index: 1 + i });
+            s.push(DiffOp::Insert { old_index: 2 + i, new_index: 1 + i, new_len: 1 });
+        }
+        out.push((format!("{} interleaved unit deletes and inserts", 2 * half), old, new, s));
     }
     out
 }
@@ -433,11 +462,33 @@ pub fn run(cfg: &RunCfg) -> CheckReport {
             }
         }
     });
+    if ex.acc.violation.is_none() {
+        let huge = huge_unit_scripts(cfg.tier);
+        let ex2 = explore(cfg, huge.len(), |shard, acc| {
+            let (name, old, new, script) = &huge[shard];
+            match check_script(script, old, new) {
+                Ok(fp) => {
+                    acc.sample(json!({"huge_script": name}));
+                    acc.ok(true, script.len() as u64, fp);
+                }
+                Err(e) => acc.violation(|| (json!({"huge_script": name}), format!("{}: {}", name, e))),
+            }
+        });
+        rep.part("huge-unit-scripts", json!({"scripts": huge.iter().map(|h| h.0.clone()).collect::<Vec<_>>()}), ex2);
+    }
     rep.part("large-scripts", json!({"large_inputs": super::large::describe(cfg.tier), "scripts_per_input": "raw Myers / Patience / LCS(<=300) streams + 3 hand-built scripts", "periodic": periodic.len(), "note": "enumerated family, not exhaustive"}), ex);
     rep
 }
 
 pub fn replay(case: &Value) -> Result<String, String> {
+    if let Some(name) = case.get("huge_script").and_then(|x| x.as_str()) {
+        for (n, old, new, script) in huge_unit_scripts(Tier::Thorough) {
+            if n == name {
+                return check_script(&script, &old, &new).map(|f| format!("holds; fingerprint {:x}", f));
+            }
+        }
+        return Err("unknown huge script".into());
+    }
     if let Some(name) = case.get("periodic").and_then(|x| x.as_str()) {
         for (n, old, new, script) in periodic_cases() {
             if n == name {
